@@ -17,7 +17,7 @@ EXPLANATION = (
     "siblings of every operator are path-enumerated against the same contract K and operator specification, the "
     "same terminals record a failure on the same abstract outcomes (FAIL-PARITY), patterns compiled for parse() "
     "and emitted by generate() agree in expression and flags (CONST-PARITY), Rule.parse / Rule skeletons agree per "
-    "modifier mask and parse_trivia siblings per trivia configuration; DIFF: for every combinator, stack operator and plain terminal, parse() (evaluated from its syntax tree on a model ParserState) and the code skeleton of generate() are run against the same scripted child and trivia outcomes and must agree on result, position, user stack, pairs, tags and the order of attempts, with checkpoints closed and depth counters restored. (c) byte-identical regeneration: no "
+    "modifier mask and parse_trivia siblings per trivia configuration; DIFF: for every combinator, stack operator and plain terminal, parse() (evaluated from its syntax tree on a model ParserState) and the code skeleton of generate() are run against the same scripted child and trivia outcomes and must agree on result, position, user stack, pairs, tags and the order of attempts, with checkpoints closed and depth counters restored; GEN-DIFF: generate_rule() and generate_parse_trivia() are evaluated (with the repository's own Builder) on model rule tables - every rule modifier x body shape (reference, group, sequence, tagged reference) x modifier of the referenced rule x silent alias x trivia configuration - and the emitted closures must build the same tree of pairs, position, stacks and order of attempts as Rule.parse on the same table and leaf outcomes. (c) byte-identical regeneration: no "
     "nondeterministic or cross-call source in any generator function; a fresh Builder per rule; the Builder's "
     "name counter is unconditional."
 )
@@ -25,7 +25,7 @@ EXPLANATION = (
 
 def run(tier: str) -> Check:
     check = Check("C01", tier, EXPLANATION)
-    check.rules = ["R1", "R2", "K2", "R5", "RAISE", "SPEC-*", "TERM", "RULE-*", "TRIVIA", "FAIL-PARITY", "SHAPE", "DELEGATE", "UNROLLED", "DIFF",
+    check.rules = ["R1", "R2", "K2", "R5", "RAISE", "SPEC-*", "TERM", "RULE-*", "TRIVIA", "FAIL-PARITY", "SHAPE", "DELEGATE", "UNROLLED", "DIFF", "GEN-DIFF",
                    "SYNTAX", "MODULE", "MODULE-NAMES", "MODULE-ORDER", "MODULE-RULES", "MODULE-CLOSURE", "MODULE-ENTRY", "HYGIENE",
                    "NAME-COLLISION", "ENUM-NAMES", "CONST-PARITY", "DETERMINISM", "BUILDER"]
     check.assumptions = [
@@ -33,11 +33,11 @@ def run(tier: str) -> Check:
         "analysis is of the templates, not of emitted modules; a construct E1 cannot model stops the run (exit 2)",
         "regex VERSION0/VERSION1 is not treated as behaviour-relevant: the only patterns compiled under different versions are single \\p{...} classes",
     ]
-    repo, rep = fill(check, tier, floors={"skeleton_variants": 45, "skeleton_paths": 120, "rule_skeleton_variants": 24, "trivia_skeleton_variants": 5, "diff_operators": 19, "diff_skeletons": 28, "diff_scripts": 230})
+    repo, rep = fill(check, tier, floors={"skeleton_variants": 45, "skeleton_paths": 120, "rule_skeleton_variants": 24, "trivia_skeleton_variants": 5, "diff_operators": 19, "diff_skeletons": 28, "diff_scripts": 230, "gen_diff_scenarios": 300})
     masks = ops.modifier_masks(repo)
     mods = modcheck.module_skeletons(repo, masks)
     for label, sk, ents in mods:
-        modcheck.check_module(check, label, sk, ents)
+        modcheck.check_module(check, label, sk, ents, repo)
     holes = list(rep.hygiene)
     for _, sk, _ in mods:
         holes.extend(sk.holes)
